@@ -294,12 +294,27 @@ where
                         }
                         let mut rng = Rng::new(mix(&[ctx.seed, lane_h, i]));
                         if let Err(p) = guarded(|| f(i, &mut rng, &mut rep)) {
-                            // a panic escaping the per-case oracle is a harness defect unless
-                            // the lane caught and classified it itself
-                            rep.harness_error(format!(
-                                "lane {} case {} escaped panic at {}:{}: {}",
-                                lane, i, p.file, p.line, p.msg
-                            ));
+                            if p.msg.starts_with("VH-STALL") {
+                                // virtual-time stall of the whole case (see world::Rt)
+                                rep.violation(
+                                    format!("stall:case-never-winds-down:{}", lane),
+                                    format!("lane {} case {}: {}", lane, i, p.msg),
+                                    json!({"lane": lane, "case": i}),
+                                );
+                            } else if p.file.starts_with("/repo/") {
+                                // a panic inside the library that no oracle caught and classified
+                                rep.violation(
+                                    format!("uncaught-panic@{}", p.site()),
+                                    format!("lane {} case {}: panic at {}:{}: {}", lane, i, p.file, p.line, p.msg),
+                                    json!({"lane": lane, "case": i}),
+                                );
+                            } else {
+                                // anything else escaping the per-case oracle is a harness defect
+                                rep.harness_error(format!(
+                                    "lane {} case {} escaped panic at {}:{}: {}",
+                                    lane, i, p.file, p.line, p.msg
+                                ));
+                            }
                         }
                     }
                     merged.lock().unwrap().merge(rep);
